@@ -53,8 +53,8 @@ def rule_a(prog, rep):
     stats = {"events": 0, "mods": 0, "diagnostic": {}, "exceptions": {}, "regions": 0, "shortcuts": 0}
     n = 0
     for name, fi in ii.methods.items():
-        if name == "__init__":
-            continue
+        if name == "__init__" or (name.startswith("_") and not name.startswith("__")):
+            continue  # private helpers are analysed through the public methods that call them
         kind = "mutator" if name in MUTATORS else "pure"
         c17.analyse_root(prog, fi, kind, rep, stats, RA="R-C06-a", RB="R-C06-a", extra=False)
         n += 1
@@ -986,7 +986,7 @@ def rule_j(prog, rep):
     from sa.rowids import Analyzer
     ii = prog.cls("iindexes", "iindex")
     n = 0
-    roots = [f for name, f in ii.methods.items()] + [prog.func("iindexes", "column_stack")]
+    roots = [f for name, f in ii.methods.items() if not (name.startswith("_") and not name.startswith("__"))] + [prog.func("iindexes", "column_stack")]
     for fi in roots:
         if getattr(fi, "node", None) is None:
             continue
@@ -1123,7 +1123,7 @@ def main(tier):
     sub7 = core.Report("C07", level="other", rules=c07.RULES, tier=tier)
     ii7 = prog.cls("iindexes", "iindex")
     st7 = {"sites": 0}
-    for fi7 in [f for n7, f in ii7.methods.items() if n7 not in ("__init__",)] + [prog.func("iindexes", "column_stack")]:
+    for fi7 in [f for n7, f in ii7.methods.items() if n7 not in ("__init__",) and not (n7.startswith("_") and not n7.startswith("__"))] + [prog.func("iindexes", "column_stack")]:
         c07.analyse_root(prog, fi7, sub7, st7)
     c07.update_order_rule(prog, sub7)
     c07.update_clear_cases(prog, sub7)
@@ -1139,7 +1139,7 @@ def main(tier):
     ii7 = prog.cls("iindexes", "iindex")
     stats7 = {"sites": 0}
     for name7, f7 in ii7.methods.items():
-        if name7 != "__init__":
+        if name7 != "__init__" and not (name7.startswith("_") and not name7.startswith("__")):
             c07.analyse_root(prog, f7, sub7, stats7)
     c07.analyse_root(prog, prog.func("iindexes", "column_stack"), sub7, stats7)
     k7 = 0
